@@ -21,7 +21,7 @@ pub struct ExRecord<'a>(log::Record<'a>);
 
 pub assume_specification<T, E, F: FnOnce(&E)>[ Result::<T, E>::inspect_err ](res: Result<T, E>, f: F) -> (r: Result<T, E>)
     requires res is Err ==> f.requires((&res->Err_0,)),
-    ensures r == res;
+    ensures r == res, res is Err ==> f.ensures((&res->Err_0,), ());
 /// `<Vec<u8> as io::Write>::write_all` appends the bytes and cannot fail
 pub assume_specification<A: std::alloc::Allocator>[ <Vec<u8, A> as std::io::Write>::write_all ](v: &mut Vec<u8, A>, buf: &[u8]) -> (r: std::io::Result<()>)
     ensures r is Ok, final(v)@ == old(v)@ + buf@;
@@ -37,7 +37,10 @@ pub mod util {
     pub(crate) fn eprint_err<E: VErr>(error_code: ErrorCode, msg: &str, err: &E)
         requires
             reportable(error_code), //@label eprint_err.perm.reportable C19
+        ensures reported(error_code),
     { unimplemented!() }
+    /// token fact (C19, "if" direction): a problem was handed to the error channel with this code - only eprint_err establishes it
+    pub uninterp spec fn reported(code: ErrorCode) -> bool;
 }
 pub mod shims {
     use super::*;
@@ -86,6 +89,8 @@ pub mod shims {
     /// SHIM for `State` (unit `state`): effect permission + the configured line ending
     pub struct State { pub cfg: FileLogWriterConfig }
     pub uninterp spec fn wb_ok(buf: Seq<u8>) -> bool;
+    /// oracle: the outcome of State::write_buffer for these bytes
+    pub uninterp spec fn wb_result(buf: Seq<u8>) -> std::io::Result<()>;
     /// oracle: the line ending in the configuration of the State behind the mutex
     pub uninterp spec fn state_line_ending() -> Seq<u8>;
     impl State {
@@ -95,6 +100,7 @@ pub mod shims {
         pub fn write_buffer(&mut self, buf: &[u8]) -> (r: std::io::Result<()>)
             requires
                 wb_ok(buf@), //@label State::write_buffer.perm C20,C01,C15
+            ensures r == wb_result(buf@),
         { unimplemented!() }
     }
     /// SHIM for a `&mut dyn Write` target (stdout, stderr, a user writer)
@@ -171,11 +177,20 @@ pub mod state_handle {
         ensures
             final(buffer)@.len() == 0, //@label sync_write_tl.post.buffer_cleared C01,C20
             final(now).origin() == old(now).origin(), //@label sync_write_tl.post.same_now C20
+            // C19: a failing format function and a failing write of the line are reported
+            !fmt_ok(handle.fmt(), record) ==> super::util::reported(ErrorCode::Format), //@label sync_write_tl.post.format_failure_reported C19
+            wb_result(fmt_bytes(handle.fmt(), record) + handle.ending()) is Err ==> super::util::reported(ErrorCode::Write), //@label sync_write_tl.post.write_failure_reported C19
     //@ span src/writers/file_log_writer/state_handle.rs impl StateHandle / fn write
     //@   block Ok(mut buffer) =>
     //@   rename sync_write_tl
     //@   rule R4c 1
     //@   rule R27 *
+    //@   closure ~*eprint_err(ErrorCode::Write ## sig |e: std::io::Error| -> (u: ())
+    //@   closure ~*eprint_err(ErrorCode::Write ## req super::util::reportable(ErrorCode::Write)
+    //@   closure ~*eprint_err(ErrorCode::Write ## ens super::util::reported(ErrorCode::Write)
+    //@   closure ~eprint_err(ErrorCode::Format ## sig |e: std::io::Error| -> (u: ())
+    //@   closure ~eprint_err(ErrorCode::Format ## req super::util::reportable(ErrorCode::Format)
+    //@   closure ~eprint_err(ErrorCode::Format ## ens super::util::reported(ErrorCode::Format)
     //@   rule R3 *
 
     /// `Err(_e)` arm: recursive logging, a temporary buffer is used; the line ending is read from the State's
@@ -191,11 +206,19 @@ pub mod state_handle {
             forall|o: int| #[trigger] now_ok(o) <==> o == old(now).origin(),
         ensures
             final(now).origin() == old(now).origin(), //@label sync_write_tmp.post.same_now C20
+            !fmt_ok(handle.fmt(), record) ==> super::util::reported(ErrorCode::Format), //@label sync_write_tmp.post.format_failure_reported C19
+            wb_result(fmt_bytes(handle.fmt(), record) + handle.ending()) is Err ==> super::util::reported(ErrorCode::Write), //@label sync_write_tmp.post.write_failure_reported C19
     //@ span src/writers/file_log_writer/state_handle.rs impl StateHandle / fn write
     //@   block Err(_e) =>
     //@   rename sync_write_tmp
     //@   rule R4c 1
     //@   rule R27 *
+    //@   closure ~*eprint_err(ErrorCode::Write ## sig |e: std::io::Error| -> (u: ())
+    //@   closure ~*eprint_err(ErrorCode::Write ## req super::util::reportable(ErrorCode::Write)
+    //@   closure ~*eprint_err(ErrorCode::Write ## ens super::util::reported(ErrorCode::Write)
+    //@   closure ~eprint_err(ErrorCode::Format ## sig |e: std::io::Error| -> (u: ())
+    //@   closure ~eprint_err(ErrorCode::Format ## req super::util::reportable(ErrorCode::Format)
+    //@   closure ~eprint_err(ErrorCode::Format ## ens super::util::reported(ErrorCode::Format)
     //@   rule R3 *
 }
 pub mod util_wb {
@@ -220,11 +243,22 @@ pub mod util_wb {
             final(buffer)@.len() == 0, //@label write_buffered_tl.post.buffer_cleared C20
             final(now).origin() == old(now).origin(), //@label write_buffered_tl.post.same_now C20
             result == dw_result(fmt_bytes(format_function, record) + seq![10u8]), //@label write_buffered_tl.post.handed_over C20,C19
+            !fmt_ok(format_function, record) ==> super::util::reported(ErrorCode::Format), //@label write_buffered_tl.post.format_failure_reported C19
+            result is Err ==> super::util::reported(ErrorCode::Write), //@label write_buffered_tl.post.write_failure_reported C19
     {
         let mut result: Result<(), std::io::Error> = Ok(());
     //@ span src/util.rs fn write_buffered
     //@   block Ok(mut buffer) =>
     //@   rename write_buffered_tl
+    //@   closure ~eprint_err(ErrorCode::Write, "writing failed", &e) ## sig |e: std::io::Error| -> (u: ())
+    //@   closure ~eprint_err(ErrorCode::Write, "writing failed", &e) ## req super::util::reportable(ErrorCode::Write)
+    //@   closure ~eprint_err(ErrorCode::Write, "writing failed", &e) ## ens super::util::reported(ErrorCode::Write)
+    //@   closure ~eprint_err(ErrorCode::Write, "writing failed", e) ## sig |e: &std::io::Error| -> (u: ())
+    //@   closure ~eprint_err(ErrorCode::Write, "writing failed", e) ## req super::util::reportable(ErrorCode::Write)
+    //@   closure ~eprint_err(ErrorCode::Write, "writing failed", e) ## ens super::util::reported(ErrorCode::Write)
+    //@   closure ~eprint_err(ErrorCode::Format ## sig |e: std::io::Error| -> (u: ())
+    //@   closure ~eprint_err(ErrorCode::Format ## req super::util::reportable(ErrorCode::Format)
+    //@   closure ~eprint_err(ErrorCode::Format ## ens super::util::reported(ErrorCode::Format)
     //@   rule R5l *
     //@   rule R4c 1
     //@   rule R3 *
@@ -239,12 +273,23 @@ pub mod util_wb {
             forall|o: int| #[trigger] now_ok(o) <==> o == old(now).origin(),
         ensures
             result == dw_result(fmt_bytes(format_function, record) + seq![10u8]), //@label write_buffered_tmp.post.handed_over C20,C19
+            !fmt_ok(format_function, record) ==> super::util::reported(ErrorCode::Format), //@label write_buffered_tmp.post.format_failure_reported C19
+            result is Err ==> super::util::reported(ErrorCode::Write), //@label write_buffered_tmp.post.write_failure_reported C19
             final(now).origin() == old(now).origin(), //@label write_buffered_tmp.post.same_now C20
     {
         let mut result: Result<(), std::io::Error> = Ok(());
     //@ span src/util.rs fn write_buffered
     //@   block Err(_e) =>
     //@   rename write_buffered_tmp
+    //@   closure ~eprint_err(ErrorCode::Write, "writing failed", &e) ## sig |e: std::io::Error| -> (u: ())
+    //@   closure ~eprint_err(ErrorCode::Write, "writing failed", &e) ## req super::util::reportable(ErrorCode::Write)
+    //@   closure ~eprint_err(ErrorCode::Write, "writing failed", &e) ## ens super::util::reported(ErrorCode::Write)
+    //@   closure ~eprint_err(ErrorCode::Write, "writing failed", e) ## sig |e: &std::io::Error| -> (u: ())
+    //@   closure ~eprint_err(ErrorCode::Write, "writing failed", e) ## req super::util::reportable(ErrorCode::Write)
+    //@   closure ~eprint_err(ErrorCode::Write, "writing failed", e) ## ens super::util::reported(ErrorCode::Write)
+    //@   closure ~eprint_err(ErrorCode::Format ## sig |e: std::io::Error| -> (u: ())
+    //@   closure ~eprint_err(ErrorCode::Format ## req super::util::reportable(ErrorCode::Format)
+    //@   closure ~eprint_err(ErrorCode::Format ## ens super::util::reported(ErrorCode::Format)
     //@   rule R5l *
     //@   rule R4c 1
     //@   rule R3 *
